@@ -50,6 +50,17 @@ theorem delivered_monotone (P : Params) (s s' : State) (e : Event) (hs : step P 
         · split at hs <;> (simp only [Option.some.injEq] at hs; subst hs; exact ⟨_, rfl⟩)
         · simp only [Option.some.injEq] at hs; subst hs; exact ⟨_, rfl⟩
     · simp at hs
+  | xAcceptUnparked =>
+    simp only [step] at hs
+    split at hs
+    · split at hs
+      · simp at hs
+      · split at hs
+        · split at hs
+          · simp only [Option.some.injEq] at hs; subst hs; exact ⟨_, rfl⟩
+          · simp at hs
+        · simp at hs
+    · simp at hs
   | lAccept id =>
     simp only [step] at hs
     split at hs
@@ -127,7 +138,7 @@ theorem delivered_monotone (P : Params) (s s' : State) (e : Event) (hs : step P 
 
 /-! ### Both orders complete (non-vacuity), both roles -/
 
-def pGood : Params := ⟨true, 1, true⟩
+def pGood : Params := ⟨true, 1, true, true⟩
 
 /-- dial first, server role: knock parked, Accept registers then starts the knock loop, stream reaches listener 7;
 a main-connection stream before and after goes to the main listener. -/
@@ -150,7 +161,7 @@ def trace3 : List Event :=
   [.dialBegin 7, .runKnock, .acceptBegin 7, .acceptFirst 7, .kRecv, .kAcceptKnock, .kAck, .dialAck, .dialOpen, .xAccept]
 
 /-- the source order before the fix: knock loop started, then listener registered -/
-def pOld : Params := ⟨false, 1, true⟩
+def pOld : Params := ⟨false, 1, true, true⟩
 
 /-- D4 (plugin accepts): dial first, the knock loop runs between the two statements of `Accept`:
 the stream for id 7 meets a token without a listener — a fatal accept error for the plugin's main gRPC server. -/
@@ -177,8 +188,22 @@ def trace5 : List Event :=
 sequential, two unblocked host-side listeners both call `session.Accept()` and the stream dialled for
 id 1 can be handed to listener 2. -/
 theorem overlap_misroute_witness :
-    ∃ s, runFrom ⟨true, 1, false⟩ (init .client) trace5 = some s ∧
+    ∃ s, runFrom ⟨true, 1, false, true⟩ (init .client) trace5 = some s ∧
       s.delivered = [(.brokered 1, .listener 2)] := by
-  refine ⟨(runFrom ⟨true, 1, false⟩ (init .client) trace5).get (by decide), by simp, by decide⟩
+  refine ⟨(runFrom ⟨true, 1, false, true⟩ (init .client) trace5).get (by decide), by simp, by decide⟩
+
+/-- the listener for id 7 is registered and acknowledged, but its server has not yet reached `Accept()` when the stream arrives -/
+def trace6 : List Event :=
+  [.acceptBegin 7, .acceptFirst 7, .acceptSecond 7, .dialBegin 7, .runKnock, .kRecv, .kAcceptKnock, .kAck, .dialAck,
+     .dialOpen, .xAcceptUnparked]
+
+/-- a hand-off that gives up when the listener is not parked (`select … default`, falling back to the default
+listener): the stream dialled for id 7 is served by the plugin's MAIN service listener -/
+theorem nonblocking_handoff_witness :
+    ∃ s, runFrom ⟨true, 1, true, false⟩ (init .server) trace6 = some s ∧ s.delivered = [(.brokered 7, .default)] := by
+  refine ⟨(runFrom ⟨true, 1, true, false⟩ (init .server) trace6).get (by decide), by simp, by decide⟩
+
+/-- … whereas the blocking hand-off simply has no such step: the loop waits for the listener -/
+example : runFrom pGood (init .server) trace6 = none := by decide
 
 end GoPlugin.Props.C08
